@@ -29,6 +29,7 @@ def plan(tier, seed):
     specs.append({"name": "real", "kind": "real", "n": 1 if q else 4, "timeout": 2400})
     # the recorded witness of the known finding (Inference.optimize returning a point outside its bounds), re-run every time
     specs.append({"name": "witness-optimize-oob", "kind": "opt", "b": 9, "n": 2, "fixed_seed": 5045, "only_opt": "optimize", "once": True, "timeout": 600})
+    specs.append({"name": "witness-optimize_log-oob", "kind": "opt", "b": 4, "n": 7, "fixed_seed": 3030, "only_opt": "optimize_log", "once": True, "timeout": 600})
     return specs
 
 
